@@ -31,7 +31,7 @@ theorem admissible_of_exact (file : List Line) (h : Hunk) (iw : Bool) (maxFuzz :
   simp only [fuzzPair_zero]
   have hlen := oldOf_length_le h.lines
   simp only [Bool.and_eq_true, decide_eq_true_eq, List.all_eq_true, List.mem_range, Bool.or_eq_true]
-  refine ⟨⟨⟨⟨⟨by simpa using hF, by omega⟩, by omega⟩, by omega⟩, by omega⟩, ?_⟩
+  refine ⟨⟨⟨⟨by simpa using hF, by omega⟩, by omega⟩, by omega⟩, ?_⟩
   intro i hi
   right
   have h1 : (oldOf h.lines)[i]? = file[p + i]? := by
